@@ -75,6 +75,12 @@ def corpus():
     out.append(_stream(["created", "deleted", "created_bad", "change_null", "deleted"], G.SEL_CHANGES, "async", "sync",
                        [0, 0, 0, 0, 0], 0))
     out.append(_stream(["deleted", "created"], G.SEL_CHANGE, "chan_async", "async", [0, 0], 0, ["len"], "late"))
+    # the same with payloads nobody keeps alive (seeded C17-j)
+    pat = ["created", "deleted", "deleted", "created", "created", "deleted", "created", "created", "deleted", "deleted",
+           "created", "deleted", "created_bad", "deleted", "created"]
+    for sel in (G.SEL_CHANGE, G.SEL_ANYCHANGE, G.SEL_CHANGES):
+        for fl in ("sync", "async"):
+            out.append(dict(_stream(pat, sel, "agen", fl, [0] * len(pat), 0), ephemeral=True))
     # histories: a consumer that stops after 1 of 3 events (nothing read ahead) / keeps calling after the end
     out.append(_history(["ok", "v_raise", "ok"], 1, 1, "sync", "sync", [0, 0, 0], 0))
     out.append(_history(["ok", "v_raise"], 5, 1, "agen", "async", [0, 1], 1))
@@ -360,6 +366,7 @@ def _make_sub_resolver(kind, events, delays, log, counter, case=None, holder=Non
                 counter["consumed"] += 1
                 log.append(["pulled", k])
                 yield ev
+                ev = None           # an ephemeral event dies here (its addresses become reusable)
             counter["requests"] += 1
             log.append(["end"])
         return agen
@@ -385,9 +392,26 @@ def _oracle_text(text):
     return "query" + " " * (len("subscription") - len("query")) + text[len("subscription"):]
 
 
+class _Ephemeral:
+    """events built afresh on every iteration and kept by nobody (seeded C17-j: a cache keyed by id(payload) on the
+    executor that all events of a stream share only misbehaves once a dead payload's address is reused)"""
+
+    def __init__(self, variants):
+        self._variants = list(variants)
+
+    def __len__(self):
+        return len(self._variants)
+
+    def __iter__(self):
+        for k, v in enumerate(self._variants):
+            yield G.make_event(v, k)
+
+
 async def _run_stream(case):
     schema = G.get_schema(case["flavour"], shared=case.get("schema") == "shared")
     events = [G.make_event(v, k) for k, v in enumerate(case["variants"])]
+    if case.get("ephemeral"):
+        events = _Ephemeral(case["variants"])
     log, counter = [], {"called": 0, "requests": 0, "consumed": 0}
     holder = []
     G.set_subscription_resolvers(schema, _make_sub_resolver(case["source"], events, case["delays"], log, counter,
